@@ -460,6 +460,47 @@ def g_formula(f, grammar):
     raise Unencodable(type(f).__name__)
 
 
+
+def g_atom2(f):
+    """SMTFormula of the extended family (Eval2.v atom2): str.to.int(v) REL k, else the family `atom`"""
+    e = f.formula
+    kinds = {z3.Z3_OP_EQ: "CEq", z3.Z3_OP_LT: "CLt", z3.Z3_OP_LE: "CLe", z3.Z3_OP_GT: "CGt", z3.Z3_OP_GE: "CGe"}
+    if (not f.substitutions and not f.instantiated_variables and z3.is_app(e) and e.decl().kind() in kinds
+            and e.num_args() == 2 and e.arg(0).decl().kind() == z3.Z3_OP_STR_TO_INT
+            and z3.is_int_value(e.arg(1))):
+        lit, name = g_sterm(e.arg(0).arg(0))
+        by_name = {v.name: v for v in f.free_variables()}
+        if name is None or name not in by_name:
+            raise Unencodable(str(e))
+        return f"(AToInt {kinds[e.decl().kind()]} {g_var(by_name[name])} {g_Z(e.arg(1).as_long())})"
+    return f"(A1 {g_atom(f)})"
+
+
+def g_formula2(f, grammar):
+    """formula atom2 literal (second-strategy model, Eval2.v)"""
+    if isinstance(f, L.SMTFormula):
+        return f"(FSmt {g_atom2(f)})"
+    if isinstance(f, L.StructuralPredicateFormula):
+        return f"(FSPred {g_str(f.predicate.name)} {g_list(f.args, g_parg)})"
+    if isinstance(f, L.SemanticPredicateFormula):
+        return f"(FSemPred {g_str(f.predicate.name)} {g_list(f.args, g_parg)})"
+    if isinstance(f, L.NegatedFormula):
+        return f"(FNot {g_formula2(f.args[0], grammar)})"
+    if isinstance(f, L.ConjunctiveFormula):
+        return f"(FAnd {g_list(f.args, lambda x: g_formula2(x, grammar))})"
+    if isinstance(f, L.DisjunctiveFormula):
+        return f"(FOr {g_list(f.args, lambda x: g_formula2(x, grammar))})"
+    if isinstance(f, L.QuantifiedFormula):
+        c = "FForall" if isinstance(f, L.ForallFormula) else "FExists"
+        i = f"(InTree {g_tree(f.in_variable)})" if isinstance(f.in_variable, T) else f"(InVar {g_var(f.in_variable)})"
+        m = "None" if f.bind_expression is None else f"(Some {g_mexpr(f, grammar)})"
+        return f"({c} {g_var(f.bound_variable)} {i} {m} {g_formula2(f.inner_formula, grammar)})"
+    if isinstance(f, L.ForallIntFormula):
+        return f"(FForallInt {g_var(f.bound_variable)} {g_formula2(f.inner_formula, grammar)})"
+    if isinstance(f, L.ExistsIntFormula):
+        return f"(FExistsInt {g_var(f.bound_variable)} {g_formula2(f.inner_formula, grammar)})"
+    raise Unencodable(type(f).__name__)
+
 # --------------------------------------------------------------------------
 # implementation / spec outcomes
 # --------------------------------------------------------------------------
@@ -682,6 +723,30 @@ OK_DEF = ("fun c : tree * formula atom * res TV * res bool * bool * bool => "
           "res_eqb tv_eqb (m_evaluate T CST f) ev && res_eqb Bool.eqb (m_check T CST f) ck "
           "&& (negb cmp_spec || Bool.eqb (s_sat T CST f) sp)")
 CST_DEF = f"Definition CST := {g_var(START)}.\n"
+# second strategy: the MODEL (Eval2.v: eliminate_quantifiers + evaluate_predicates_action + the pure
+# query; Z3's part is played by the candidate-based evaluator z3_by_cands) against the implementation,
+# and the class predicate of the finding K_numq_sort (Eval2Check.v); `mismatches` lists the cases
+# where ok_fn is false
+S2_IMPORTS = "Eval2 Eval2Check"
+S2_OK_DEF = ("fun c : tree * formula atom2 * res TV * res bool => let '(T, f, ev, ck) := c in "
+             "res_eqb tv_eqb (m2_evaluate z3_by_cands T CST f) ev && "
+             "res_eqb Bool.eqb (m2_check z3_by_cands T CST f) ck")
+S2_CLASS_DEF = ("fun c : tree * formula atom2 * res TV * res bool => let '(T, f, ev, ck) := c in "
+                "negb (K_numq_sort f)")
+# formulas that are SENSITIVE to the sort of the numeric quantifier (finding K_numq_sort) and, for
+# contrast, formulas inside the guard of C03_strategy2_correct_partial
+NUMQ_FORMS = [
+    ('forall int n: (>= (str.to.int n) 0)', "assgn"),
+    ('exists int n: (= n "abc")', "assgn"),
+    ('exists int n: (< (str.to.int n) 0)', "list"),
+    ('forall int n: (not (= n "x"))', "expr"),
+    ('exists int n: (= (str.len n) 0)', "block"),
+    ('forall int n: ((not count(start, "<assgn>", n)) or (>= (str.to.int n) 1))', "assgn"),
+    ('exists int n: (count(start, "<var>", n) and forall <var> v in start: (not (= v n)))', "assgn"),
+    ('exists int n: (count(start, "<digit>", n) and exists <digit> d in start: (= d n))', "list"),
+    ('forall int n: exists int m: ((not count(start, "<term>", n)) or (count(start, "<term>", m) and (= n m)))', "expr"),
+    ('exists int n: (= n "2")', "list"),
+]
 # hypotheses of C03_eval_correct_mexpr (Props/C03.v) as the verified boolean `mexpr_guard`
 # (EvalMexprCheck.v), evaluated on the INSTANTIATED formula; `mismatches` lists the cases where
 # ok_fn is false, i.e. where the guard HOLDS
@@ -732,6 +797,27 @@ def run(run):
     s2_keys = []
     verdicts_per_formula = {}
     spec_failures = []      # impl departs from spec (candidates)
+    s2_shards, s2_meta = [], []     # second-strategy cases for the Coq model (Eval2.v)
+
+    def s2_add(tname, t, fobj, g, ev, ck, sp, meta):
+        """one second-strategy case for the Coq stage (model vs implementation, class K_numq_sort)"""
+        meta = dict(meta, evaluate=ev, check=ck, spec=sp)
+        try:
+            lit = g_formula2(fobj, g)
+        except Unencodable as e:
+            hist["strategy2_unencodable"] = hist.get("strategy2_unencodable", 0) + 1
+            return meta
+        case = f"({tname}, {lit}, {g_out_tv(ev)}, {g_out_b(ck)})"
+        tdef = f"Definition {tname} := {g_tree(t)}.\n"
+        if s2_shards and len(s2_shards[-1][1]) < 120:
+            d, cs = s2_shards[-1]
+            s2_shards[-1] = (d if tdef in d else d + tdef, cs + [case])
+            s2_meta[-1].append(meta)
+        else:
+            s2_shards.append((CST_DEF + tdef, [case]))
+            s2_meta.append([meta])
+        return meta
+
     for gname, g in GRAMMARS.items():
         cg = canonical(g)
         md = min_depths(cg)
@@ -877,6 +963,10 @@ def run(run):
                     continue
                 hist[ev[1] if ev[0] == "ok" else "raise"] += 1
                 s2_keys.append((key, str(t)))
+                if thorough or (fi + ti) % 3 == 0:
+                    s2_add(f"T_{gname}_{ti}", t, w, g, ev, ck, sp,
+                           {"grammar": gname, "tree": tree_json(t), "input": str(t), "formula": str(w),
+                            "source": wsrc, "how": "strategy2-" + kind, "key": key, "wide": False})
                 if not agrees_with_spec(ev, ck, sp):
                     spec_failures.append({
                         "grammar": gname, "tree": tree_json(t), "input": str(t), "formula": str(w), "source": wsrc,
@@ -912,10 +1002,47 @@ def run(run):
             verdicts_per_formula.setdefault((gname, src, "numeric"), set()).add(sp)
             hist["strategy2_numeric"] += 1
             hist[ev[1] if ev[0] == "ok" else "raise"] += 1
+            s2_add(f"T_num_{num_forms.index((src, gname))}_{k}", t, pf, g, ev, ck, sp,
+                   {"grammar": gname, "tree": tree_json(t), "input": str(t), "formula": src, "source": src,
+                    "how": "numeric", "key": (gname, src, "numeric"), "wide": False})
             if not agrees_with_spec(ev, ck, sp):
                 spec_failures.append({"grammar": gname, "tree": tree_json(t), "input": str(t), "formula": src,
                                       "source": src, "how": "numeric", "evaluate": ev, "check": ck, "spec": sp,
                                       "key": (gname, src, "numeric"), "wide": False})
+
+    # numeric quantifiers whose truth depends on WHAT the bound variable ranges over (numerals in the
+    # specification, all strings in the Z3 query: finding K_numq_sort) next to formulas inside the guard
+    # of C03_strategy2_correct_partial; a departure from the specification is attributed to the class
+    # by the Coq predicate K_numq_sort (evaluated below), anything else is a VIOLATION
+    for qi, (src, gname) in enumerate(NUMQ_FORMS):
+        g = GRAMMARS[gname]
+        cg, md = canonical(g), min_depths(canonical(g))
+        try:
+            solver = ISLaSolver(g, src)
+            pf = L.parse_isla(src, g, STANDARD_STRUCTURAL_PREDICATES, STANDARD_SEMANTIC_PREDICATES)
+        except Exception as e:
+            run.violation({"kind": "numeric formula rejected", "source": src, "error": repr(e)[:300],
+                           "obligation": "harness/c03.py NUMQ_FORMS"}, found_input=False)
+            continue
+        for k in range(3 if not thorough else 10):
+            t = rand_derivation(rng, cg, md, "<start>", rng.randint(3, 5))
+            if len(t.paths()) > 40:
+                continue
+            ev, ck = impl_evaluate(src, t, g), impl_check(solver, t)
+            sp = spec_verdict(pf, t, g, bound=len(t.paths()) + 2)
+            hist["strategy2_numeric"] += 1
+            hist["strategy2_numq_sort_stream"] = hist.get("strategy2_numq_sort_stream", 0) + 1
+            if ev == ("ok", "UU"):
+                hist["strategy2_unknown"] += 1
+                continue
+            hist[ev[1] if ev[0] == "ok" else "raise"] += 1
+            m = s2_add(f"T_nq_{qi}_{k}", t, pf, g, ev, ck, sp,
+                       {"grammar": gname, "tree": tree_json(t), "input": str(t), "formula": src, "source": src,
+                        "how": "numq-sort", "key": (gname, src, "numq-sort"), "wide": False})
+            s2_keys.append(((gname, src, "numq-sort"), str(t)))
+            verdicts_per_formula.setdefault((gname, src, "numq-sort"), set()).add(sp)
+            if not agrees_with_spec(ev, ck, sp):
+                spec_failures.append(m)
 
     t_4 = time.time()
     run.cov["phase_seconds"] = {"proof_stage": round(t_1 - t_0, 1), "known_replay": round(t_2 - t_1, 1),
@@ -955,6 +1082,35 @@ def run(run):
             corr_bad.append(smeta[k][i])
     except RuntimeError as e:
         run.violation({"kind": "correspondence-not-evaluable", "obligation": "Eval.v cases",
+                       "error": str(e)[-2500:]}, found_input=False)
+
+    # ---- second strategy: model (Eval2.v) <-> implementation, class predicate K_numq_sort ----
+    try:
+        bad2, dt2 = lib.coq_run_shards("c03s2", S2_IMPORTS, S2_OK_DEF, s2_shards)
+        kcls, dt3 = lib.coq_run_shards("c03s2k", S2_IMPORTS, S2_CLASS_DEF, s2_shards)
+        n_s2 = sum(len(ms) for ms in s2_meta)
+        for (k, i) in kcls:
+            s2_meta[k][i]["knumq"] = True
+        in_class = sum(1 for ms in s2_meta for m in ms if m.get("knumq"))
+        run.cov["strategy2_model"] = {"cases_in_coq": n_s2, "model_differs": len(bad2),
+                                      "K_numq_sort_cases": in_class, "outside_class": n_s2 - in_class,
+                                      "coq_seconds": round(dt2 + dt3, 1)}
+        print(f"[C03] second strategy: cases in Coq={n_s2} model!=impl={len(bad2)} in class K_numq_sort={in_class}",
+              flush=True)
+        for (k, i) in bad2:
+            corr_bad.append(s2_meta[k][i])
+        if n_s2 == 0:
+            run.violation({"kind": "no second-strategy case could be encoded for the model",
+                           "obligation": "harness/c03.py g_formula2"}, found_input=False)
+        for ms in s2_meta:
+            for m in ms:
+                # outside the class the guard of the numeric quantifiers holds: theorem + correspondence
+                # predict the specification's verdict (the other guards are those of the first strategy)
+                if not m.get("knumq") and not agrees_with_spec(m["evaluate"], m["check"], m["spec"]) \
+                        and m not in spec_failures:
+                    spec_failures.append(m)
+    except RuntimeError as e:
+        run.violation({"kind": "correspondence-not-evaluable", "obligation": "Eval2.v cases",
                        "error": str(e)[-2500:]}, found_input=False)
 
     # ---- hypotheses of C03_eval_correct_mexpr on the generated match-expression cases ----
@@ -1042,6 +1198,8 @@ def run(run):
             cls = "K_wide"
         elif definite and m.get("keps"):
             cls = "K_mexpr_eps_shape"
+        elif definite and m.get("knumq"):
+            cls = "K_numq_sort"
         if cls and cls in known_by_class:
             run.known(known_by_class[cls]["what"])
             run.cov.setdefault("known_class_hits", {}).setdefault(cls, 0)
@@ -1069,7 +1227,7 @@ def run(run):
         run.violation({"kind": "correspondence broken but the spec verdicts agree",
                        "first": {k: w[k] for k in ("grammar", "input", "formula", "how", "evaluate", "check", "spec")},
                        "count": len(corr_bad), "diag": diag,
-                       "obligation": "correspondence Eval.v (m_evaluate/m_check/satb) <-> "
+                       "obligation": "correspondence Eval.v / Eval2.v (m_evaluate/m_check/m2_evaluate/m2_check/satb) <-> "
                                      "isla.evaluator.evaluate / ISLaSolver.check / spec_sem.py"},
                       found_input=False)
     if not proof_ok:
@@ -1079,7 +1237,9 @@ def run(run):
         "match-expression prefix trees are inputs of the model (BindExpression.to_tree_prefix is not modelled)",
         "SMT atoms restricted to string (in)equality, str.len comparisons, true/false (concrete family `atom`); "
         "other atoms enter the theorems through the Section hypotheses on aeval/adenote",
-        "numeric quantifiers (second strategy) are compared with the spec by bounded search only",
+        "numeric quantifiers (second strategy): Z3's validity answer on the pure query is an oracle of the theorem "
+        "(premises z3_sound / z3_decides); in the Coq run of the model its part is played by the candidate-based "
+        "evaluator z3_by_cands (Eval2.v, unverified); the spec side is compared by bounded search (spec_sem)",
         "instantiate_top_level_constant: the `&`/`|` smart constructors are not modelled (verdict-preserving)",
         "spec_sem.py decides ground SMT atoms with Z3; its verdicts are cross-checked against satb in Coq on every case",
     ]
